@@ -233,7 +233,7 @@ func (s *splitter) Start(ck *snapshotpb.SourceCheckpoint) error {
 		}
 	}
 	s.c.log.add(func(l *Log) {
-		l.Restores = append(l.Restores, Restore{Gen: s.c.gen.Load(), HasCheckpoint: ck != nil, CheckpointID: ck.GetCheckpointId(), Positions: append([]int{}, pos...), SeenPerSplit: seen})
+		l.Restores = append(l.Restores, Restore{Seq: l.Seq, Gen: s.c.gen.Load(), HasCheckpoint: ck != nil, CheckpointID: ck.GetCheckpointId(), Positions: append([]int{}, pos...), SeenPerSplit: seen})
 	})
 	as := map[string][]*workerpb.SourceSplit{}
 	for _, id := range s.ids {
@@ -350,6 +350,7 @@ type Assignment struct {
 	Cursor int
 }
 type Restore struct {
+	Seq           uint64 // position in the global observation order (comparable with Published.Seq)
 	Gen           int64
 	HasCheckpoint bool
 	CheckpointID  uint64
@@ -365,11 +366,15 @@ type AckObs struct {
 	Err       string
 }
 type Published struct {
+	Seq       uint64 // position in the global observation order
+	Done      bool   // false: the job is about to write the checkpoint file; true: the file has been written
 	ID        uint64
 	Positions []int // per split, -1 if the checkpoint holds no state for it
+	States    []int // per split, how many split states the checkpoint holds (1 each when well-formed)
 	Operators int
 }
 type Log struct {
+	Seq         uint64 // number of observations so far
 	Invocations []Invocation
 	Emissions   []Emission
 	Assignments []Assignment
@@ -390,6 +395,7 @@ type logBox struct {
 
 func (b *logBox) add(f func(*Log)) {
 	b.mu.Lock()
+	b.l.Seq++
 	f(&b.l)
 	close(b.changed)
 	b.changed = make(chan struct{})
@@ -641,25 +647,29 @@ func (s *recordingStore) Write(path string, data io.Reader) (string, error) {
 	if err != nil {
 		return "", err
 	}
-	uri, err := s.StorageLocation.Write(path, strings.NewReader(string(b)))
-	if err == nil && strings.HasSuffix(path, ".snapshot") {
+	var pub *Published
+	if strings.HasSuffix(path, ".snapshot") {
 		var ck snapshotpb.JobCheckpoint
 		if gproto.Unmarshal(b, &ck) == nil {
-			pos := make([]int, s.c.opts.Script.NumSplits())
-			for i := range pos {
-				pos[i] = -1
+			n := s.c.opts.Script.NumSplits()
+			pub = &Published{ID: ck.Id, Positions: make([]int, n), States: make([]int, n), Operators: len(ck.OperatorCheckpoints)}
+			for i := range pub.Positions {
+				pub.Positions[i] = -1
 			}
 			for _, sc := range ck.SourceCheckpoints {
 				for _, st := range sc.SplitStates {
-					if sp, p, ok := decodeCursor(st); ok && sp < len(pos) {
-						pos[sp] = p
+					if sp, p, ok := decodeCursor(st); ok && sp < n {
+						pub.Positions[sp] = p
+						pub.States[sp]++
 					}
 				}
 			}
-			s.c.log.add(func(l *Log) {
-				l.Published = append(l.Published, Published{ID: ck.Id, Positions: pos, Operators: len(ck.OperatorCheckpoints)})
-			})
+			s.c.log.add(func(l *Log) { p := *pub; p.Seq = l.Seq; l.Published = append(l.Published, p) })
 		}
+	}
+	uri, err := s.StorageLocation.Write(path, strings.NewReader(string(b)))
+	if err == nil && pub != nil {
+		s.c.log.add(func(l *Log) { p := *pub; p.Seq = l.Seq; p.Done = true; l.Published = append(l.Published, p) })
 	}
 	return uri, err
 }
@@ -967,7 +977,7 @@ func (c *Cluster) ack(w *worker, kind string, id uint64, positions map[int]int, 
 func (c *Cluster) AwaitPublished(id uint64, timeout time.Duration) bool {
 	return c.Await(func(l *Log) bool {
 		for _, p := range l.Published {
-			if p.ID == id {
+			if p.ID == id && p.Done {
 				return true
 			}
 		}
